@@ -80,7 +80,8 @@ CHECKS['C03'] = (
  '26 elementary/special functions over the complete value set of a 3-digit float on 11 binades plus structured hard points, '
  'under MPFloat p=1..12,24,53,64,113,237, small IEEE/MPS formats, binary16/32/64 and MPFixed targets (the two-pass precision '
  'branch), all 8 modes; all 12 named constants at EVERY precision 1..512 and MPFixed positions -200..5; exactness decided from '
- 'a table of the rational cases before any evaluation.',
+ 'a table of the rational cases before any evaluation; plus explicit-state histories: ordered sequences of (constant or function, '
+ 'context) evaluations started from a pristine process, each step judged by the same order-independent oracle.',
  'Trusted base: MPFR directed rounding at the oracle precision (a common-mode MPFR bug is out of scope); operands dyadic; '
  'magnitudes capped for exp-like functions; overflow flag and sign of a true zero result not judged.', '§5 C03')
 CHECKS['C06'] = (
@@ -133,7 +134,8 @@ CHECKS['C19'] = (
  'every listed index, at the listed cursor, at out-of-range indices and at None; the reported edit log is checked against an '
  'independent replay model (only the selected sites rewritten, all and only listed sites for None, sites+refusals = independently '
  'enumerated candidates); cursors taken on every statement of the original are forwarded across every history of depth <= 2 '
- '(thorough: 3 on small nests) and must resolve to the marker-carrying descendant or raise TransformReferenceError.',
+ '(thorough: 3 on small nests) and must resolve to the marker-carrying descendant or raise TransformReferenceError; user rewrite rules (fpy2.rewrite, '
+ 'replacement shorter / equal / longer than the pattern, statement and expression patterns) are part of the strategy alphabet.',
  'Histories that change nothing are checked but not extended; within=/region where are not explored.', '§5 C19')
 CHECKS['C20'] = (
  'exhaustive enumeration of all operand pairs (scale-reduced triples) of small float formats x contexts x modes for every '
@@ -173,7 +175,9 @@ CHECKS['C12'] = (
  'for over a list, three range forms) crossed with every assignment of binary16/32/64 x four modes and integer contexts to the with '
  'nodes, the outer context and the return form, plus 12 tuple/tensor/reduction templates with every contiguous statement range '
  'wrapped in an inner with; each program is compiled, the core evaluated by titanfp, re-read with from_fpcore, and all three compared '
- 'on 6-14 argument vectors and list sizes 0-3; disagreements with titanfp are arbitrated by an independent evaluator of FPCore text.',
+ 'on 6-14 argument vectors and list sizes 0-3; disagreements with titanfp are arbitrated by an independent evaluator of FPCore text; a read-direction layer enumerates 840 '
+ '(thorough 1890) FPCore texts directly (function-level property sets x inner partial annotations x nesting) and compares '
+ 'from_fpcore with the reference evaluator.',
  'titanfp is the trusted reference (its known overflow quirk under directed modes is arbitrated by the text evaluator and not '
  'reported); empty tensors are inconclusive for the compile direction; zero sign not compared.', '§5 C12')
 CHECKS['C14'] = (
